@@ -403,3 +403,159 @@ Proof.
   apply lc_snake_aux; [|cbn [head_cap]; symmetry; now apply low_not_cap|reflexivity].
   cbn [camel_tail]. rewrite Hc, (low_not_cap c Hc), Hr. reflexivity.
 Qed.
+
+(* ---- ToSnake idempotence -------------------------------------------------
+   Snake normal form: no capitals, no separator other than '_', never a lower-case
+   letter next to a digit.  Every output of the ToSnake loop is in normal form (for
+   ALL byte strings), and the loop is the identity on normal forms. *)
+Definition okc (c : N) : bool := negb (is_cap c) && (negb (is_sep c) || (c =? 95)).
+Definition adj (c n : N) : bool := negb (is_low c && is_num n) && negb (is_num c && is_low n).
+Definition hadj (c : N) (l : list N) : bool := match l with [] => true | n :: _ => adj c n end.
+Fixpoint snake_nf (s : list N) : bool :=
+  match s with [] => true | c :: r => okc c && hadj c r && snake_nf r end.
+
+Lemma nf_head_cap : forall r, snake_nf r = true -> head_cap r = false.
+Proof.
+  intros [|n r] H; [reflexivity|]. cbn [snake_nf] in H. cbn [head_cap].
+  apply andb_true_iff in H. destruct H as [H _]. apply andb_true_iff in H. destruct H as [H _].
+  unfold okc in H. apply andb_true_iff in H. destruct H as [H _]. now apply negb_true_iff in H.
+Qed.
+
+Lemma snake_nf_fixed : forall s pc, snake_nf s = true -> delimited_go 95 false pc s = s.
+Proof.
+  induction s as [|c r IH]; intros pc H; [reflexivity|].
+  cbn [snake_nf] in H. apply andb_true_iff in H. destruct H as [H Hr].
+  apply andb_true_iff in H. destruct H as [Hc Ha].
+  unfold okc in Hc. apply andb_true_iff in Hc. destruct Hc as [Hcap Hsep].
+  apply negb_true_iff in Hcap. rewrite delimited_go_cons, Hcap.
+  pose proof (nf_head_cap r Hr) as Hhc. rewrite Hhc. cbn [orb].
+  destruct (is_low c) eqn:El.
+  - assert (Ev : conv false c = c) by (unfold conv; rewrite El, Hcap; reflexivity). rewrite Ev.
+    assert (Hn : head_num r = false).
+    { destruct r as [|n r']; [reflexivity|]. cbn [hadj head_num] in *. unfold adj in Ha.
+      rewrite El in Ha. destruct (is_num n); [discriminate|reflexivity]. }
+    rewrite Hn. cbn [app]. f_equal. now apply IH.
+  - destruct (is_num c) eqn:En.
+    + assert (Hl : head_low r = false).
+      { destruct r as [|n r']; [reflexivity|]. cbn [hadj head_low] in *. unfold adj in Ha.
+        rewrite En, El in Ha. destruct (is_low n); [discriminate|reflexivity]. }
+      rewrite Hl. cbn [app]. f_equal. now apply IH.
+    + destruct (is_sep c) eqn:Es.
+      * cbn [negb orb] in Hsep. apply N.eqb_eq in Hsep. subst c. f_equal. now apply IH.
+      * f_equal. now apply IH.
+Qed.
+
+Lemma hd_delimited : forall pc c r,
+  hd_error (delimited_go 95 false pc (c :: r)) =
+    Some (if (is_cap c && pc && head_low r) || is_sep c then 95 else conv false c).
+Proof.
+  intros pc c r. rewrite delimited_go_cons. destruct (is_cap c) eqn:Ec.
+  - rewrite (cap_not_sep c Ec), orb_false_r. cbn [andb]. destruct (pc && head_low r); reflexivity.
+  - cbn [andb orb]. destruct (is_low c) eqn:El.
+    + rewrite (low_not_sep c El). reflexivity.
+    + assert (Ev : conv false c = c) by (unfold conv; rewrite El, Ec; reflexivity). rewrite Ev.
+      destruct (is_num c) eqn:En; [rewrite (num_not_sep c En)|]; reflexivity.
+Qed.
+
+Lemma hadj_hd : forall x l, hadj x l = match hd_error l with None => true | Some n => adj x n end.
+Proof. intros x [|n l]; reflexivity. Qed.
+
+Lemma conv_low : forall c, is_low (conv false c) = is_low c || is_cap c.
+Proof.
+  intros c. unfold conv. rewrite andb_false_r. cbn [negb]. rewrite andb_true_r.
+  destruct (is_cap c) eqn:Ec.
+  - now rewrite (cap_lower_is_low c Ec), orb_true_r.
+  - now rewrite orb_false_r.
+Qed.
+
+Lemma hadj_delimited : forall x pc r,
+  (is_low x = true -> head_num r = false) ->
+  (is_num x = true -> head_low r = false /\ head_cap r = false) ->
+  hadj x (delimited_go 95 false pc r) = true.
+Proof.
+  intros x pc [|n r'] Hl Hn; [reflexivity|].
+  rewrite hadj_hd, hd_delimited.
+  destruct ((is_cap n && pc && head_low r') || is_sep n).
+  - unfold adj. assert (E1 : is_num 95 = false) by reflexivity.
+    assert (E2 : is_low 95 = false) by reflexivity. rewrite E1, E2, !andb_false_r. reflexivity.
+  - unfold adj. rewrite conv_num, conv_low. cbn [head_num head_low head_cap] in *.
+    destruct (is_low x) eqn:Elx.
+    + rewrite (Hl eq_refl). cbn [andb negb]. rewrite (low_not_num x Elx). reflexivity.
+    + cbn [andb negb]. destruct (is_num x) eqn:Enx; [|reflexivity].
+      destruct (Hn eq_refl) as [H1 H2]. rewrite H1, H2. reflexivity.
+Qed.
+
+Lemma snake_nf_us : forall l, snake_nf (95 :: l) = snake_nf l.
+Proof. intros [|n l]; reflexivity. Qed.
+
+Lemma snake_nf_delimited : forall s pc, snake_nf (delimited_go 95 false pc s) = true.
+Proof.
+  induction s as [|c r IH]; intros pc; [reflexivity|].
+  rewrite delimited_go_cons.
+  assert (Hus : forall (b : bool) l, snake_nf ((if b then [95] else []) ++ l) = snake_nf l).
+  { intros [] l; [apply snake_nf_us|reflexivity]. }
+  assert (Hcons : forall x l, snake_nf (x :: l) = okc x && hadj x l && snake_nf l) by reflexivity.
+  assert (Hx95 : forall x l, hadj x (95 :: l) = true).
+  { intros x l. cbn [hadj]. unfold adj. assert (E1 : is_num 95 = false) by reflexivity.
+    assert (E2 : is_low 95 = false) by reflexivity. rewrite E1, E2, !andb_false_r. reflexivity. }
+  destruct (is_cap c) eqn:Ec; [|destruct (is_low c) eqn:El; [|destruct (is_num c) eqn:En]].
+  - rewrite Hus, Hcons.
+    pose proof (cap_lower_is_low c Ec) as Hlow.
+    assert (Ev : conv false c = c + 32) by (unfold conv; rewrite (cap_not_low c Ec), Ec; reflexivity).
+    rewrite Ev. assert (Hok : okc (c + 32) = true).
+    { unfold okc. rewrite (low_not_cap _ Hlow), (low_not_sep _ Hlow). reflexivity. }
+    rewrite Hok. destruct (head_num r) eqn:Hn.
+    + cbn [app]. rewrite Hx95, snake_nf_us, IH. reflexivity.
+    + cbn [app]. rewrite IH, hadj_delimited; [reflexivity|intros _; exact Hn|].
+      rewrite (low_not_num _ Hlow). discriminate.
+  - rewrite Hcons.
+    assert (Ev : conv false c = c) by (unfold conv; rewrite El, Ec; reflexivity). rewrite Ev.
+    assert (Hok : okc c = true) by (unfold okc; rewrite Ec, (low_not_sep c El); reflexivity).
+    rewrite Hok. destruct (head_cap r || head_num r) eqn:Hh.
+    + cbn [app]. rewrite Hx95, snake_nf_us, IH. reflexivity.
+    + apply orb_false_iff in Hh. destruct Hh as [_ Hn].
+      cbn [app]. rewrite IH, hadj_delimited; [reflexivity|intros _; exact Hn|].
+      rewrite (low_not_num _ El). discriminate.
+  - rewrite Hcons.
+    assert (Hok : okc c = true) by (unfold okc; rewrite Ec, (num_not_sep c En); reflexivity).
+    rewrite Hok. destruct (head_cap r || head_low r) eqn:Hh.
+    + cbn [app]. rewrite Hx95, snake_nf_us, IH. reflexivity.
+    + apply orb_false_iff in Hh. destruct Hh as [Hc Hl].
+      cbn [app]. rewrite IH, hadj_delimited; [reflexivity|rewrite El; discriminate|].
+      intros _. split; assumption.
+  - rewrite Hcons, IH. destruct (is_sep c) eqn:Es.
+    + assert (E : okc 95 = true) by reflexivity. rewrite E.
+      rewrite hadj_delimited; [reflexivity|discriminate|discriminate].
+    + assert (Hok : okc c = true) by (unfold okc; rewrite Ec, Es; reflexivity).
+      rewrite Hok, hadj_delimited; [reflexivity|rewrite El; discriminate|rewrite En; discriminate].
+Qed.
+
+(* the loop of ToSnake is idempotent on every byte string ... *)
+Theorem snake_loop_idem : forall s pc pc',
+  delimited_go 95 false pc' (delimited_go 95 false pc s) = delimited_go 95 false pc s.
+Proof. intros s pc pc'. apply snake_nf_fixed, snake_nf_delimited. Qed.
+
+(* ... hence ToSnake is idempotent wherever TrimSpace leaves the result alone, in
+   particular on identifiers *)
+Theorem to_snake_idem_gen : forall n,
+  trim_space (to_snake n) = to_snake n -> to_snake (to_snake n) = to_snake n.
+Proof.
+  intros n Ht. unfold to_snake at 1. unfold to_delimited, to_screaming_delimited.
+  rewrite Ht. unfold to_snake, to_delimited, to_screaming_delimited. apply snake_loop_idem.
+Qed.
+
+Lemma to_snake_ident : forall n, ident n = true -> ident (to_snake n) = true.
+Proof.
+  intros n Hn. unfold to_snake, to_delimited, to_screaming_delimited.
+  rewrite (trim_space_ident n Hn). now apply ident_delimited.
+Qed.
+
+Theorem to_snake_idem : forall n, ident n = true -> to_snake (to_snake n) = to_snake n.
+Proof. intros n Hn. apply to_snake_idem_gen, trim_space_ident, to_snake_ident, Hn. Qed.
+
+(* a name that is already snake-normal (e.g. a lower_snake field name) is a fixed point *)
+Theorem to_snake_fixed : forall n, ident n = true -> snake_nf n = true -> to_snake n = n.
+Proof.
+  intros n Hi Hn. unfold to_snake, to_delimited, to_screaming_delimited.
+  rewrite (trim_space_ident n Hi). now apply snake_nf_fixed.
+Qed.
